@@ -218,7 +218,7 @@ AddrRegSet(s, which, v) == IF which = 8 THEN [s EXCEPT !.r.sp = v] ELSE [s EXCEP
 RestoreBkrep(s, which) ==
     IF s.r.lp # 0 /\ s.r.bcn > 3 THEN Fail(s, "assert") ELSE
     LET s1 == IF s.r.lp # 0
-              THEN [s EXCEPT !.r.bk = [k \in 1 .. 4 |-> IF k >= 2 /\ k <= s.r.bcn + 1 THEN s.r.bk[k - 1] ELSE s.r.bk[k]],
+              THEN [s EXCEPT !.r.bk = LET F(k) == IF k >= 2 /\ k <= s.r.bcn + 1 THEN s.r.bk[k - 1] ELSE s.r.bk[k] IN <<F(1), F(2), F(3), F(4)>>,
                              !.r.bcn = @ + 1]
               ELSE s
         a0 == AddrRegGet(s1, which)
@@ -240,7 +240,7 @@ StoreBkrep(s, which) ==
         s3 == DWrite(s2, (a0 + B - 3) % B, f.end % B)
         s4 == AddrRegSet(DWrite(s3, (a0 + B - 4) % B, flag % B), which, (a0 + B - 4) % B)
     IN  IF s.r.lp # 0
-        THEN [s4 EXCEPT !.r.bk = [k \in 1 .. 4 |-> IF k + 1 <= s.r.bcn THEN s.r.bk[k + 1] ELSE s.r.bk[k]],
+        THEN [s4 EXCEPT !.r.bk = LET F(k) == IF k + 1 <= s.r.bcn THEN s.r.bk[k + 1] ELSE s.r.bk[k] IN <<F(1), F(2), F(3), F(4)>>,
                         !.r.bcn = @ - 1, !.r.lp = IF s.r.bcn - 1 = 0 THEN 0 ELSE @]
         ELSE s4
 
